@@ -29,12 +29,14 @@ RULE = ("cases: tensors of order 1-6 with dims from {1,2,3,5} (size-capped), eve
         "truncated SVD with a bond cap, and leg lists that are not a bipartition. "
         "non-trivial = distinct case with a non-identity leg permutation, an empty side, a wide or tall "
         "matricisation under FULL/KEEP, a rank-deficient tensor, or a rejected input")
-PARTIAL = ["numerical clauses (factors contract back to the tensor, Q/U/Vh isometries, S >= 0 descending) hold by the "
-           "contract of numpy.linalg.qr / numpy.linalg.svd, validated on every live call; the theorems cover the "
-           "index logic (legality of the reshape, shapes, leg orders, bond dimensions, padding amount, rejected "
-           "inputs) and the abstract matrix facts (zero padding, partial isometry, equality of contraction modes)",
-           "that np.transpose / np.reshape / np.pad do to a C-ordered array what the model's shape calculus says is "
-           "trusted (DESIGN.md section 2) and exercised by the einsum reconstruction"]
+PARTIAL = ["numerical clauses: that Q R = M, U S Vh = M entrywise, that Q/U/Vh are isometries and S >= 0 descending is the "
+           "contract of numpy.linalg.qr / numpy.linalg.svd (hypothesis of the theorems, validated on every live call). "
+           "GIVEN the contract, reconstruction of the tensor with the documented leg order is proved at the level of "
+           "entries for all modes (matricize_unmatricize, qr_reconstructs, keep_reconstructs incl. zero padding, "
+           "svd_reconstructs incl. FULL's leading len(S) columns/rows), on a value-level model of transpose / C-order "
+           "reshape / pad (Ptn/C11/Value.lean) that is compared with NumPy on every QR/SVD case (`matidx`)",
+           "that np.transpose / np.reshape / np.pad implement that value-level model is trusted (DESIGN.md section 2) and "
+           "exercised by the matidx comparison and the einsum reconstruction"]
 ASSUMPTIONS = ["leg lists contain non-negative Python ints (NumPy would also accept negative axes)",
                "both leg lists have the same sequence type (tuple + list raises TypeError in the library)"]
 
@@ -201,12 +203,24 @@ def _build_tensor(case):
     return rnd(sh)
 
 
+def _mat_ij(case):
+    """A seeded entry (i, j) of the matricised tensor."""
+    sh, a, b = case["shape"], case["a"], case["b"]
+    r = random.Random(case["seed"] ^ 0x5BD1E995)
+    return r.randrange(_prod(sh[i] for i in a)), r.randrange(_prod(sh[i] for i in b))
+
+
+def _matidx_line(case):
+    i, j = _mat_ij(case)
+    return line_three("matidx", case["shape"], case["a"], case["b"]) + f" | {i} {j}"
+
+
 def model_lines(case):
     k = case["kind"]
     if k == "qr":
-        return [line_three(f"qr {case['mode']}", case["shape"], case["a"], case["b"])]
+        return [line_three(f"qr {case['mode']}", case["shape"], case["a"], case["b"]), _matidx_line(case)]
     if k == "svd":
-        return [line_three(f"svd {case['mode']}", case["shape"], case["a"], case["b"])]
+        return [line_three(f"svd {case['mode']}", case["shape"], case["a"], case["b"]), _matidx_line(case)]
     if k == "contr":
         return [line_three("svd reduced", case["shape"], case["a"], case["b"]),
                 line_three(f"tsvd {case['cap']}", case["shape"], case["a"], case["b"]),
@@ -242,8 +256,10 @@ def run_case(ctx, case, model_out=None):
         warnings.simplefilter("ignore")
         if kind == "qr":
             _case_qr(ctx, case, model_out[0])
+            _check_matidx(ctx, case, model_out[1])
         elif kind == "svd":
             _case_svd(ctx, case, model_out[0])
+            _check_matidx(ctx, case, model_out[1])
         elif kind == "contr":
             _case_contr(ctx, case, model_out)
         else:
@@ -287,6 +303,37 @@ def _tally(ctx, case, m, n):
     ctx.tally("sides", "empty-first" if not case["a"] else "empty-second" if not case["b"] else "both")
     ctx.tally("fill", case.get("fill", "-") + (":c" if case.get("complex") else ":r"))
     ctx.tally("has_dim1", 1 in case["shape"])
+
+
+# ------------------------------------------------------------------ value level of the matricisation
+
+def _check_matidx(ctx, case, model_out):
+    """Which entry of the input does `tensor_matricization` put at [i, j]?  Implementation (on an
+    arange tensor, so the entry IS its flat position), value-level model, and the definition."""
+    from pytreenet.util.tensor_util import tensor_matricization
+    sh, a, b = case["shape"], case["a"], case["b"]
+    i, j = _mat_ij(case)
+    t = np.arange(_prod(sh)).reshape(tuple(sh))
+    try:
+        impl = int(tensor_matricization(t, tuple(a), tuple(b))[i, j])
+    except Exception as e:          # noqa: BLE001
+        ctx.oracle_fail(case, f"tensor_matricization shape={sh} out={a} in={b} raised {type(e).__name__}: {str(e)[:100]}")
+        return
+    if str(impl) != model_out:
+        ctx.corr_fail(case, f"tensor_matricization shape={sh} out={a} in={b}: entry [{i},{j}] is input position {impl}, model says {model_out}")
+    qd, rd = [sh[x] for x in a], [sh[x] for x in b]
+    ia = np.unravel_index(i, qd) if qd else ()
+    ib = np.unravel_index(j, rd) if rd else ()
+    idx = [0] * len(sh)
+    for ax, v in zip(a, ia):
+        idx[ax] = int(v)
+    for ax, v in zip(b, ib):
+        idx[ax] = int(v)
+    want = int(np.ravel_multi_index(idx, sh)) if sh else 0
+    if impl != want:
+        ctx.oracle_fail(case, f"tensor_matricization shape={sh} out={a} in={b}: entry [{i},{j}] comes from input "
+                              f"position {impl}, but row {i} = legs {list(map(int, ia))}, column {j} = legs "
+                              f"{list(map(int, ib))} is input position {want}")
 
 
 # ------------------------------------------------------------------ QR
